@@ -30,5 +30,14 @@ got = os.path.dirname(os.path.dirname(os.path.abspath(cminx.__file__)))
 if os.path.realpath(got) != os.path.realpath(src):
     sys.stderr.write("driver: cminx imported from %s, expected %s\n" % (got, src))
     sys.exit(97)
+# the packaged entry script (src/main.py: what PyInstaller wraps and cminx_gen_rst() runs) is executed where it
+# exists, so that whatever it does to the arguments before cminx.main() is part of what is observed
+mainpy = os.path.join(src, "main.py")
+args = sys.argv[1:]
 for _ in range(int(os.environ.get("VERIF_REPEAT", "1"))):
-    cminx.main(sys.argv[1:])
+    if os.path.isfile(mainpy) and os.environ.get("VERIF_ENTRY", "script") == "script":
+        import runpy
+        sys.argv = [mainpy] + list(args)
+        runpy.run_path(mainpy, run_name="__main__")
+    else:
+        cminx.main(args)
